@@ -19,7 +19,7 @@ EXPLANATION = (
     " C20-b also requires every encoder result that carries a dynamic-table index (Relative, PostBase, Inserted, Duplicated, InsertedWith*NameRef) to be tracked by track_ref on the same path.")
 # every anchor of these rules lives in the h3 crate: thorough tier repeats them on the feature-less build
 EXTRA_CONFIGS = ["h3-plain"]
-RULES = "C20-a capacity guard (A2/A3); C20-b eviction guarded by references, scan stops at the first referenced entry, every index the encoder hands out is tracked and reported as the section's required reference, evict cleans both lookup maps (A3/A4/A10); C20-c instruction codecs (A11 + decision lists); C20-d section prefix: get() inverts new() and equals RFC 9204 4.5.1.1 over small table states (extracted-expression evaluation)"
+RULES = "C20-a capacity guard (A2/A3); C20-b eviction guarded by references, scan stops at the first referenced entry, every index the encoder hands out is tracked and reported as the section's required reference, evict cleans both lookup maps (A3/A4/A10); C20-c instruction codecs (A11 + decision lists); C20-d section prefix: get() inverts new() and equals RFC 9204 4.5.1.1 over small table states (extracted-expression evaluation); C20-c also: a parsed encoder instruction is applied before the next one is parsed"
 
 HERE = os.path.dirname(os.path.dirname(os.path.abspath(__file__)))
 WIRE = json.load(open(os.path.join(HERE, "ref", "rfc9204_wire_formats.json")))
